@@ -10,6 +10,7 @@ func initHashSet() {
 	RegisterNativeClass("Std::HashSet", "value.HashSetClass")
 
 	HashSetIteratorClass = NewClass()
+	HashSetIteratorClass.IncludeMixin(ResettableIteratorBaseMixin)
 	HashSetClass.AddConstantString("Iterator", Ref(HashSetIteratorClass))
 	RegisterNativeClass("Std::HashSet::Iterator", "value.HashSetIteratorClass")
 }
